@@ -98,7 +98,19 @@ type world struct {
 	stopped  bool
 }
 
-func stName(s sleep.State) string { return s.String() }
+// stName names a state without calling State.String (which lives in the
+// statement-instrumented sleep.go and would be a scheduling point).
+func stName(s sleep.State) string {
+	switch s {
+	case sleep.StateAwake:
+		return "AWAKE"
+	case sleep.StateSleeping:
+		return "SLEEPING"
+	case sleep.StatePolling:
+		return "POLLING"
+	}
+	return fmt.Sprintf("STATE(%d)", uint8(s))
+}
 
 // sample reads the state and applies the transition oracle (a) and the
 // post-wake quiescence oracle (c, state part).
